@@ -88,8 +88,10 @@ def explore(domain, seed_index, first_ops, depth, max_states=4000):
     seeds = domain.seeds()
     build = seeds[seed_index][1]
     ops = domain.ops()
-    base_world = build()
-    base_obs = domain.observe(base_world)
+    base_obs = {False: domain.observe(build())}
+    light_ok = getattr(domain, "LIGHT", False)
+    if light_ok:
+        base_obs[True] = domain.observe(build(), light=True)
     seen, fails = set(), []
     transitions = 0
     frontier = [[i] for i in first_ops]
@@ -118,13 +120,16 @@ def explore(domain, seed_index, first_ops, depth, max_states=4000):
             if len(seen) > max_states:
                 truncated = True
                 break
+            # the deepest level of a search of depth >= 3 uses the light battery (queries, structure snapshot,
+            # consistency of derived objects) -- the conversions' languages are compared on all shallower levels
+            light = light_ok and d == depth and depth >= 3
             try:
-                obs = domain.observe(w)
+                obs = domain.observe(w, light=True) if light else domain.observe(w)
                 transitions += domain.BATTERY
             except Exception as e:
                 obs = ("observation raised", type(e).__name__, str(e)[:200])
-            if obs != base_obs:
-                fails.append(([ops[i][0] for i in hist], domain.diff(base_obs, obs)))
+            if obs != base_obs[light]:
+                fails.append(([ops[i][0] for i in hist], domain.diff(base_obs[light], obs)))
             if d < depth:
                 for oi in range(len(ops)):
                     nxt.append(hist + [oi])
